@@ -136,6 +136,13 @@ func addHistory(run *hx.Run, d histDesc, label string) {
 	}
 	if len(st.changed) > 0 {
 		run.Count("hist:member-changed(implementation)")
+		ids, _ := run.Extra["histories_with_a_changed_member"].([]int)
+		if len(ids) < 50 {
+			run.Extra["histories_with_a_changed_member"] = append(ids, len(run.Cases)-1)
+		}
+		if _, ok := run.Extra["first_change"]; !ok {
+			run.Extra["first_change"] = st.changed[0]
+		}
 	}
 	for _, op := range d.Ops {
 		n := "op:" + op.Op
